@@ -217,7 +217,7 @@ pub fn run(id: &str, tier: &str) -> Report {
         completed_tables += 1;
         if let Some(c) = cases.last() { rep.sample(json!({"body": c.body, "table": cfg.name()})); }
     }
-    if id == "C05" { c05_extra(&mut rep, thorough); }
+    if id == "C05" { c05_extra(&mut rep, thorough); c05_game_facts(&mut rep); }
     if id == "C02" { c02_real(&mut rep, thorough); }
     rep.exhaustive = true;
     rep.bound_completed = format!("deviations<={bound}, expr depth<={depth}, stmts<={max_stmts}; {completed_tables}/{} intrinsic tables; pools {:?}; {} valuations; difficulties 0-3 where a switch/label occurs", tables.len(), pools, vals.len());
@@ -385,6 +385,149 @@ fn c05_extra(rep: &mut Report, thorough: bool) {
     }
 }
 
+
+/// (3) per-game scratch facts, for EVERY game of every register language (reference data below, from the games'
+///     documentation: general-purpose registers by type, and the instruction that forbids scratch use with its scope):
+///     (a) n simultaneously live locals of one type, n = 1 ..= |GP| + 1: n <= |GP| must compile to n distinct registers
+///         of that type's GP list; n = |GP| + 1 must be rejected with an error; the same with a mentioned GP register;
+///     (b) the anti-scratch instruction in every position relative to a statement that needs scratch (same script
+///         before / after, another script before / after): must be rejected within its documented scope (whole file for
+///         ECL's call-stack switch, the one script for ANM's copyParentVars) and accepted outside it; games without
+///         such an instruction compile the same layouts.
+fn c05_game_facts(rep: &mut Report) {
+    use crate::drive::{self, CompileOpts, Kind, Tool};
+    struct GameFacts { kind: Kind, game: &'static str, ints: Vec<i32>, floats: Vec<i32>, anti: Option<(u16, &'static str, bool /*whole file*/)> }
+    let anm_ints = vec![10000, 10001, 10002, 10003, 10008, 10009];
+    let anm_floats = vec![10004, 10005, 10006, 10007];
+    let mut facts: Vec<GameFacts> = vec![
+        GameFacts { kind: Kind::Ecl, game: "th06", ints: vec![-10001, -10002, -10003, -10004, -10009, -10010, -10011, -10012], floats: vec![-10005, -10006, -10007, -10008], anti: Some((130, "ins_130(1);", true)) },
+        GameFacts { kind: Kind::Ecl, game: "th07", ints: vec![10000, 10001, 10002, 10003, 10012, 10013, 10014, 10015], floats: vec![10004, 10005, 10006, 10007, 10008, 10009, 10010, 10011, 10072, 10074], anti: Some((130, "ins_130(1);", true)) },
+        GameFacts { kind: Kind::Ecl, game: "th08", ints: vec![10000, 10001, 10002, 10003, 10004, 10005, 10006, 10007, 10036, 10037, 10038, 10039], floats: vec![10016, 10017, 10018, 10019, 10020, 10021, 10022, 10023, 10094, 10095], anti: Some((151, "ins_151(1);", true)) },
+        GameFacts { kind: Kind::Ecl, game: "th09", ints: vec![10000, 10001, 10002, 10003, 10004, 10005, 10006, 10007, 10036, 10037, 10038, 10039], floats: vec![10016, 10017, 10018, 10019, 10020, 10021, 10022, 10023, 10094, 10095], anti: Some((151, "ins_151(1);", true)) },
+        GameFacts { kind: Kind::Ecl, game: "th095", ints: vec![10000, 10001, 10002, 10003, 10004, 10005, 10006, 10007, 10020, 10021, 10022, 10023], floats: vec![10008, 10009, 10010, 10011, 10012, 10013, 10014, 10015, 10077, 10078, 10079, 10080], anti: Some((126, "ins_126(1);", true)) },
+    ];
+    for g in ["th07", "th08", "th09", "th095", "th10", "alcostg", "th11", "th12", "th125", "th128", "th13"] {
+        facts.push(GameFacts { kind: Kind::Anm, game: g, ints: anm_ints.clone(), floats: anm_floats.clone(), anti: None });
+    }
+    for g in ["th14", "th143", "th15", "th16", "th165", "th17", "th18", "th185"] {
+        facts.push(GameFacts { kind: Kind::Anm, game: g, ints: anm_ints.clone(), floats: anm_floats.clone(), anti: Some((509, "ins_509();", false)) });
+    }
+    const ENTRY: &str = "entry {\n    path: \"subdir/file.png\", has_data: false, img_width: 512, img_height: 512, img_format: 3,\n    sprites: {sprite0: {id: 0, x: 0.0, y: 0.0, w: 512.0, h: 480.0}},\n}\n";
+    let file_of = |f: &GameFacts, scripts: &[String]| -> (String, String) {
+        let magic = if f.kind == Kind::Ecl { "!eclmap" } else { "!anmmap" };
+        let map = format!("{magic}\n!ins_signatures\n2000 S\n2001 f\n!ins_names\n2000 mS\n2001 mf\n");
+        let mut src = String::new();
+        if f.kind == Kind::Anm { src += ENTRY; }
+        for (i, b) in scripts.iter().enumerate() {
+            if f.kind == Kind::Ecl { src += &format!("void sub{i}() {{\n{b}}}\n"); } else { src += &format!("script script{i} {{\n{b}}}\n"); }
+        }
+        if f.kind == Kind::Ecl { src += "script timeline0 { }\n"; }
+        (src, map)
+    };
+    // registers that appear in the first script of the written file
+    let regs_used = |f: &GameFacts, tool: Tool, bytes: &[u8], all: &BTreeSet<i32>| -> Result<BTreeSet<i32>, String> {
+        let instrs: Vec<crate::m2::Instr> = match f.kind {
+            Kind::Ecl => crate::m2::walk_ecl(bytes, tool.game)?.subs.get(0).cloned().unwrap_or_default(),
+            _ => crate::m2::walk_anm(bytes, tool.game)?.get(0).and_then(|e| e.scripts.get(0).map(|s| s.instrs.clone())).unwrap_or_default(),
+        };
+        let mut used = BTreeSet::new();
+        for ins in &instrs { for (k, w) in ins.args.chunks(4).enumerate() {
+            if w.len() < 4 { continue; }
+            let raw = u32::from_le_bytes([w[0], w[1], w[2], w[3]]);
+            if f.game == "th06" && f.kind == Kind::Ecl {
+                let fl = f32::from_bits(raw);
+                if all.contains(&(raw as i32)) { used.insert(raw as i32); } else if fl == fl.round() && fl.abs() < 1.0e6 && all.contains(&(fl as i32)) { used.insert(fl as i32); }
+                continue;
+            }
+            if k >= 16 || ins.param_mask >> k & 1 == 0 { continue; }
+            let as_int = raw as i32;
+            used.insert(if (9000..11000).contains(&as_int) { as_int } else { f32::from_bits(raw) as i32 });
+        } }
+        Ok(used)
+    };
+    struct Out { key: String, fails: Vec<Failure>, evals: u64, nontrivial: bool }
+    let work: Vec<usize> = (0..facts.len()).collect();
+    let results = par_map(&work, Some(rep.deadline()), |_, &fi| {
+        let f = &facts[fi];
+        let tool = Tool::new(f.kind, f.game.parse().unwrap());
+        let host = format!("{}-{}", if f.kind == Kind::Ecl { "ecl" } else { "anm" }, f.game);
+        let mut out = Out { key: host.clone(), fails: vec![], evals: 0, nontrivial: true };
+        let all: BTreeSet<i32> = f.ints.iter().chain(f.floats.iter()).copied().collect();
+        let mut fail = |out: &mut Out, sig: String, d: serde_json::Value| out.fails.push(Failure { signature: format!("C05:game-facts:{host}:{sig}"), detail: d });
+        // ---- (a) exhaustion per type, with 0 or 1 GP register mentioned by the source
+        for (ty, sigil, marker, gp) in [("int", "$", "mS", &f.ints), ("float", "%", "mf", &f.floats)] {
+            for mention in [false, true] {
+                let avail = gp.len() - mention as usize;
+                for n in 1..=avail + 1 {
+                    let mut b = String::new();
+                    for i in 0..n { b += &format!("    {ty} v{i} = {};\n", if ty == "int" { format!("{}", 100 + i) } else { format!("{}.5", 100 + i) }); }
+                    if mention { b += &format!("    {marker}({sigil}REG[{}]);\n", gp[gp.len() / 2]); }
+                    for i in 0..n { b += &format!("    {marker}(v{i});\n"); }
+                    let (src, map) = file_of(f, &[b]);
+                    let c = drive::compile(tool, src.as_bytes(), &CompileOpts { mapfiles: vec![&map], ..Default::default() });
+                    out.evals += 1;
+                    let d = |extra: serde_json::Value| json!({"family": "game-facts", "host": host, "source": src, "mapfile": map, "info": extra});
+                    if let Some(p) = &c.panic { fail(&mut out, format!("panic:{}", p.signature()), d(json!({"panic": p.text}))); continue; }
+                    match (&c.bytes, n <= avail) {
+                        (Some(bytes), true) => {
+                            match regs_used(f, tool, bytes, &all) {
+                                Err(e) => fail(&mut out, "unreadable-output".into(), d(json!({"error": e}))),
+                                Ok(used) => {
+                                    let mentioned: BTreeSet<i32> = if mention { [gp[gp.len() / 2]].into_iter().collect() } else { BTreeSet::new() };
+                                    let picked: Vec<i32> = used.iter().copied().filter(|r| !mentioned.contains(r)).collect();
+                                    let outside: Vec<i32> = picked.iter().copied().filter(|r| !gp.contains(r)).collect();
+                                    if !outside.is_empty() { fail(&mut out, format!("{ty}-local-outside-gp-set"), d(json!({"picked": picked, "outside": outside, "gp": gp}))); }
+                                    else if picked.len() != n { fail(&mut out, format!("{ty}-locals-share-a-register:n={n}"), d(json!({"picked": picked, "n": n}))); }
+                                },
+                            }
+                        },
+                        (Some(_), false) => fail(&mut out, format!("{ty}-locals-beyond-gp-set-accepted:mention={mention}"), d(json!({"n": n, "gp": gp}))),
+                        (None, true) => fail(&mut out, format!("{ty}-locals-within-gp-set-rejected:n={n}:mention={mention}"), d(json!({"diag": c.diag.chars().take(600).collect::<String>()}))),
+                        (None, false) => { if !drive::has_error(&c.diag) { fail(&mut out, "rejected-without-error".into(), d(json!({"diag": c.diag}))); } },
+                    }
+                }
+            }
+        }
+        // ---- (b) anti-scratch layouts
+        let r0 = f.ints[0]; let r1 = f.ints[1];
+        let users: [(&str, String); 2] = [("local", "    int x = 5;\n    mS(x);\n".to_string()), ("temporary", format!("    $REG[{r0}] = ($REG[{r0}] + 1) * ($REG[{r1}] + 2);\n"))];
+        let plain = format!("    $REG[{r0}] = $REG[{r1}];\n    mS(3);\n");
+        let (anti_stmt, whole_file) = match f.anti { Some((_, st, wf)) => (format!("    {st}\n"), wf), None => ("    mS(7);\n".to_string(), false) };
+        let has_anti = f.anti.is_some();
+        for (uname, user) in &users {
+            // (layout name, scripts, scratch use inside the forbidding scope?)
+            let layouts: Vec<(&str, Vec<String>, bool)> = vec![
+                ("control-no-anti", vec![user.clone(), plain.clone()], false),
+                ("anti-alone", vec![format!("{anti_stmt}{plain}"), plain.clone()], false),
+                ("same-script-anti-first", vec![format!("{anti_stmt}{user}")], has_anti),
+                ("same-script-anti-last", vec![format!("{user}{anti_stmt}")], has_anti),
+                ("other-script-anti-first", vec![format!("{anti_stmt}{plain}"), user.clone()], has_anti && whole_file),
+                ("other-script-anti-last", vec![user.clone(), format!("{plain}{anti_stmt}")], has_anti && whole_file),
+                ("three-scripts-anti-middle", vec![user.clone(), format!("{anti_stmt}"), plain.clone()], has_anti && whole_file),
+            ];
+            for (lname, scripts, must_fail) in layouts {
+                let (src, map) = file_of(f, &scripts);
+                let c = drive::compile(tool, src.as_bytes(), &CompileOpts { mapfiles: vec![&map], ..Default::default() });
+                out.evals += 1;
+                let d = json!({"family": "game-facts", "host": host, "source": src, "mapfile": map, "layout": lname, "diag": c.diag.chars().take(600).collect::<String>()});
+                if let Some(p) = &c.panic { fail(&mut out, format!("panic:{}", p.signature()), d); continue; }
+                match (c.bytes.is_some(), must_fail) {
+                    (true, true) => fail(&mut out, format!("antiscratch-ignored:{uname}:{lname}"), d),
+                    (false, false) => fail(&mut out, format!("rejected-outside-antiscratch-scope:{uname}:{lname}"), d),
+                    (false, true) => { if !drive::has_error(&c.diag) { fail(&mut out, "rejected-without-error".into(), d); } },
+                    (true, false) => {},
+                }
+            }
+        }
+        out
+    });
+    for r in results {
+        let Some(o) = r else { rep.cap_hit = Some("wall cap in C05 game-facts family".into()); continue; };
+        rep.evaluations += o.evals; rep.states += o.evals; rep.traces_validated += o.evals; rep.nontrivial += o.evals;
+        rep.outcome(&format!("game-facts:{}:{}", o.key, if o.fails.is_empty() { "ok" } else { "VIOLATION" }));
+        rep.failures.extend(o.fails);
+    }
+}
 
 // ---------------------------------------------------------------------------------------------
 // C02 on real register files: the same generated bodies are compiled as whole files for real games
